@@ -31,7 +31,7 @@ type sideParams struct {
 }
 
 func sideSearch(name string) search.Search {
-	switch name {
+	switch strings.TrimSuffix(name, "-noisy") {
 	case "plain":
 		return search.AlphaBeta{Eval: search.Leaf{Eval: eval.Material{}}}
 	case "quiescence":
@@ -56,12 +56,20 @@ type sideResult struct {
 	Err   string
 }
 
-func runSide(s search.Search, f string, depth int) sideResult {
+// sideNoise: engines whose name ends in "-noisy" search with evaluation noise from a fixed seed.
+func sideNoise(name string) eval.Random {
+	if strings.HasSuffix(name, "-noisy") {
+		return eval.NewRandom(5000, 11)
+	}
+	return eval.Random{}
+}
+
+func runSide(s search.Search, f string, depth int, noise eval.Random) sideResult {
 	b, err := fen.NewBoard(f)
 	if err != nil {
 		panic(err)
 	}
-	n, sc, pv, e := s.Search(context.Background(), &search.Context{TT: search.NoTranspositionTable{}}, b, depth)
+	n, sc, pv, e := s.Search(context.Background(), &search.Context{TT: search.NoTranspositionTable{}, Noise: noise}, b, depth)
 	r := sideResult{Nodes: n, Score: sc, PV: board.PrintMoves(pv)}
 	if e != nil {
 		r.Err = e.Error()
@@ -91,7 +99,7 @@ func buildSide(params json.RawMessage) explore.Scenario {
 					if s == nil {
 						s = sideSearch(p.Engines[i])
 					}
-					results[i] = runSide(s, p.FENs[i], p.Depth)
+					results[i] = runSide(s, p.FENs[i], p.Depth, sideNoise(p.Engines[i]))
 					done[i] = true
 				})
 			}
@@ -118,7 +126,7 @@ func buildSide(params json.RawMessage) explore.Scenario {
 				key := fmt.Sprintf("%s|%s|%d", p.Engines[i], p.FENs[i], p.Depth)
 				want, ok := sideMemo[key]
 				if !ok {
-					want = runSide(sideSearch(p.Engines[i]), p.FENs[i], p.Depth) // sequential: no scheduler is active here
+					want = runSide(sideSearch(p.Engines[i]), p.FENs[i], p.Depth, sideNoise(p.Engines[i])) // sequential: no scheduler is active here
 					sideMemo[key] = want
 				}
 				if results[i] != want {
@@ -137,9 +145,10 @@ func init() {
 	Builders["side"] = buildSide
 	Defs["C18"] = &Def{
 		ID:   "C18",
-		Rule: "concurrent half of C18, built with a scheduling point at the entry of every non-trivial function of pkg/board, pkg/search, pkg/eval and the three historical engines: two or three independent engines (plain, quiescence, and the TUROCHAMP, SARGON and BERNSTEIN searches) search small roots side by side, also sharing one Search value; every schedule within the deviation bound must give each engine exactly the (score, PV, node count) it returns alone",
+		Rule: "concurrent half of C18, built with a scheduling point at the entry of every non-trivial function of pkg/board, pkg/search, pkg/eval and the three historical engines: two or three independent engines (plain, quiescence, with and without evaluation noise, and the TUROCHAMP, SARGON and BERNSTEIN searches) search small roots side by side, also sharing one Search value; every schedule within the deviation bound must give each engine exactly the (score, PV, node count) it returns alone",
 		Gen: func(tier string) []explore.Scenario {
-			pairs := [][]string{{"plain", "plain"}, {"quiescence", "plain"}, {"turochamp", "turochamp"}, {"bernstein", "bernstein"}, {"plain", "turochamp"}}
+			pairs := [][]string{{"plain", "plain"}, {"quiescence", "plain"}, {"turochamp", "turochamp"}, {"bernstein", "bernstein"}, {"plain", "turochamp"},
+				{"quiescence", "quiescence-noisy"}, {"plain-noisy", "plain"}} // one engine with evaluation noise next to one without
 			if tier == "thorough" {
 				pairs = append(pairs, []string{"sargon", "sargon"}, []string{"sargon", "bernstein"})
 			}
